@@ -1231,5 +1231,52 @@ func sameNameDifferentClass(r *lib.Run) int {
 			}
 		}
 	}
+	// every pair of DIFFERENT (classname, name) identities over a small alphabet in which concatenations coincide
+	// (A + B.m and A.B + m), names repeat across classes and classes repeat across names: always two cases
+	classes := []string{"", "A", "B", "A.B", "A.B.C", "A/B"}
+	names := []string{"m", "B.m", "C.m", "B.C.m", ".m", "m."}
+	type ident struct{ c, n string }
+	var ids []ident
+	for _, c := range classes {
+		for _, nm := range names {
+			ids = append(ids, ident{c, nm})
+		}
+	}
+	for i, a := range ids {
+		for _, b := range ids[i+1:] {
+			for _, os := range [][2]string{{"pass", "fail"}, {"fail", "pass"}, {"pass", "pass"}} {
+				c1 := fmt.Sprintf(`<testcase name=%q classname=%q time="0.1">%s</testcase>`, a.n, a.c, bodies[os[0]])
+				c2 := fmt.Sprintf(`<testcase name=%q classname=%q time="0.1">%s</testcase>`, b.n, b.c, bodies[os[1]])
+				doc := `<?xml version="1.0"?><testsuites><testsuite name="s">` + c1 + c2 + `</testsuite></testsuites>`
+				parsed, err := test.VerifParseDatumC26([]byte(doc))
+				n++
+				if err != nil {
+					r.Violate("distinct-identities:parse-error", map[string]any{"doc": doc}, err.Error())
+					continue
+				}
+				agg := core.TestSuite{}
+				agg.Add(parsed.TestCases...)
+				wantFail := 0
+				for _, o := range os {
+					if o == "fail" {
+						wantFail++
+					}
+				}
+				if agg.Tests() != 2 || agg.Failures() != wantFail || agg.Passes() != 2-wantFail {
+					kind := "different-class-and-name"
+					switch {
+					case a.c+"."+a.n == b.c+"."+b.n:
+						kind = "classname-dot-name-coincides"
+					case a.n == b.n:
+						kind = "same-name"
+					case a.c == b.c:
+						kind = "same-class"
+					}
+					r.Violate("aggregate:distinct-identities:"+kind+":cases-merged", map[string]any{"doc": doc, "outcomes": os},
+						fmt.Sprintf("two cases (%q, %q: %s) and (%q, %q: %s) aggregate to tests=%d pass=%d fail=%d", a.c, a.n, os[0], b.c, b.n, os[1], agg.Tests(), agg.Passes(), agg.Failures()))
+				}
+			}
+		}
+	}
 	return n
 }
